@@ -127,26 +127,26 @@ func (it *Interp) branch(cond *Term) bool {
 	if mv, ok := it.evalModel(cond); ok {
 		if mv != 0 {
 			feasT, mT = true, p.model
-			r, m := it.sol.Check(notc, true)
+			r, m := it.check(notc, true)
 			feasF, mF = r != Unsat, m
 			if r == Unknown {
 				p.unknowns++
 			}
 		} else {
 			feasF, mF = true, p.model
-			r, m := it.sol.Check(cond, true)
+			r, m := it.check(cond, true)
 			feasT, mT = r != Unsat, m
 			if r == Unknown {
 				p.unknowns++
 			}
 		}
 	} else {
-		r, m := it.sol.Check(cond, true)
+		r, m := it.check(cond, true)
 		feasT, mT = r != Unsat, m
 		if r == Unknown {
 			p.unknowns++
 		}
-		r, m = it.sol.Check(notc, true)
+		r, m = it.check(notc, true)
 		feasF, mF = r != Unsat, m
 		if r == Unknown {
 			p.unknowns++
@@ -201,7 +201,7 @@ func (it *Interp) concretize(t *Term, cap_ int) uint64 {
 		excl = it.tt.Not(it.tt.Eq(t, it.tt.Const(t.W, mv)))
 	}
 	for {
-		r, m := it.sol.Check(excl, true)
+		r, m := it.check(excl, true)
 		if r == Unknown {
 			p.unknowns++
 			panic(engineErr("solver unknown while concretising %s", t))
@@ -280,7 +280,7 @@ func (it *Interp) assume(c *Term) {
 	if mv, ok := it.evalModel(c); ok && mv != 0 {
 		// model still fine
 	} else {
-		r, m := it.sol.Check(c, true)
+		r, m := it.check(c, true)
 		if r == Unsat {
 			panic(pathEnd{reason: "assume", detail: "assume unsatisfiable"})
 		}
@@ -342,7 +342,7 @@ func (it *Interp) checkAssertion(notc *Term) (SatResult, Model) {
 	if mv, ok := it.evalModel(notc); ok && mv != 0 {
 		return Sat, it.path.model
 	}
-	r, m := it.sol.Check(notc, true)
+	r, m := it.check(notc, true)
 	if r == Unknown {
 		// portfolio fallback on one-shot solvers
 		ts := append(append([]*Term{}, it.path.pc...), notc)
@@ -407,6 +407,9 @@ func pureInstr(ins ssa.Instruction) bool {
 			case "len", "cap", "min", "max":
 				return true
 			}
+		}
+		if _, ok := ins.Call.Value.(*ssa.Function); ok {
+			return true // purity is enforced dynamically: an impure callee aborts the speculation
 		}
 	}
 	return false
@@ -576,4 +579,24 @@ func describeEvents(evs []NondetEvent) string {
 		parts = append(parts, fmt.Sprintf("%s=%d", e.Name, e.Value))
 	}
 	return strings.Join(parts, " ")
+}
+
+// check wraps the solver call: a query that had to be killed counts as unknown; the solver is restarted
+// and the path condition re-asserted.
+func (it *Interp) check(extra *Term, wantModel bool) (res SatResult, m Model) {
+	defer func() {
+		if r := recover(); r != nil {
+			if _, ok := r.(solverKilled); !ok {
+				panic(r)
+			}
+			it.sol.NUnknown++
+			it.sol.Restart()
+			it.sol.Push()
+			for _, c := range it.path.pc {
+				it.sol.Assert(c)
+			}
+			res, m = Unknown, nil
+		}
+	}()
+	return it.sol.Check(extra, wantModel)
 }
